@@ -1,4 +1,5 @@
 import Martian.Lemmas.Har
+import Martian.Props.C16.Headers
 /-!
 C16 — HAR entries faithfully describe the exchange and survive a JSON round trip.
 Only property theorems and non-vacuity examples live here.
